@@ -43,7 +43,7 @@ TABLE = [
      "types with an empty namespace were skipped when grouping, so the path has a last segment"),
     (r"utils::ensure_unique_type_paths", "assert", r"Overflow:Add", r"user@",
      "the suffix counter is bounded by the number of same-path shape groups, far below i32::MAX for any registry that fits in memory"),
-    (r"utils::types_equal_inner", "unwrap", r"Option::expect", r"PortableRegistry::resolve\(P6,P[03]\)",
+    (r"utils::types_equal_inner", "unwrap", r"Option::expect", r"PortableRegistry::resolve\(P\d,P\d\)",
      "W2: compared ids come from the registry itself (entry ids and ids mentioned inside entries)"),
     (r"GenericsList::(index_for_type_id|index_for_type_name|new_inner)", "assert", r"Overflow:Add", r"user@",
      "sums of lengths of in-memory vectors of generic parameters cannot overflow usize"),
